@@ -66,6 +66,18 @@ theorem C15_unique_of_holds (ttl : Nat → Nat) (pre : Store) (view : List Key)
   rw [hl] at hg3
   exact Bool.noConfusion hg3.2
 
+/-- **Exhaustion fails cleanly.** The step in which a `Generate` / `AllocateNodeID` call gives up
+(`ErrIDExhausted`, "no available node ID") writes nothing to the store, on either path. -/
+theorem C15_exhaustion_marks_nothing (P : Params) (c : Cfg) (tid t kind : Nat)
+    (h : (stepThread P c tid).trace = c.trace ++ [.exh t kind]) :
+    (stepThread P c tid).store = c.store := by
+  rcases step_store_or_event P c tid with h1 | ⟨e, he, hne⟩
+  · exact h1
+  · rw [he] at h
+    have := List.append_cancel_left h
+    simp at this
+    exact absurd this (hne t kind)
+
 /-! ## Fallback path (store without `SetNX`): `mu.Lock; Exists; Set; mu.Unlock` -/
 
 /-- **C15, fallback path, one generator instance.** On a store without `SetNX` the
